@@ -41,28 +41,28 @@ type CallAssert struct {
 }
 
 type Contract struct {
-	PkgPath  string
-	Key      string // e.g. "(*ALUImpl).runSADDU32", "memRangeOverlap"
-	File     string
-	Line     int
-	Property string
-	IntMode  bool
-	NoPanic  bool
-	Pure     bool
-	Trusted  string
-	Requires []Clause
-	Ensures  []Clause
-	ModGiven bool
-	Modifies []*Expr
-	MayPanic []string
-	LoopInv  map[int][]Clause
-	LoopDec  map[int]*Expr
-	LoopMod  map[int][]*Expr
-	Unroll   map[int]bool
-	CallAssert []CallAssert // "assert-at call f k name: expr": site obligation before the k-th call of f
-	RetAssert map[int][]Clause // "assert-at return k name: expr": intermediate assertion at the k-th return statement (source order)
-	Extra    map[string][]string
-	Fn       *ssa.Function
+	PkgPath    string
+	Key        string // e.g. "(*ALUImpl).runSADDU32", "memRangeOverlap"
+	File       string
+	Line       int
+	Property   string
+	IntMode    bool
+	NoPanic    bool
+	Pure       bool
+	Trusted    string
+	Requires   []Clause
+	Ensures    []Clause
+	ModGiven   bool
+	Modifies   []*Expr
+	MayPanic   []string
+	LoopInv    map[int][]Clause
+	LoopDec    map[int]*Expr
+	LoopMod    map[int][]*Expr
+	Unroll     map[int]bool
+	CallAssert []CallAssert     // "assert-at call f k name: expr": site obligation before the k-th call of f
+	RetAssert  map[int][]Clause // "assert-at return k name: expr": intermediate assertion at the k-th return statement (source order)
+	Extra      map[string][]string
+	Fn         *ssa.Function
 }
 
 func (c *Contract) FullName() string { return shortPkg(c.PkgPath) + "." + c.Key }
